@@ -93,6 +93,12 @@ def check(ctx):
                "reorder(): lookups and removals that can fail operate on copies; the live list is replaced once, after them", floor=1)
     ctx.guarded(o, lambda o: reorder_rule(ctx, o))
 
+    o = ctx.ob('link_facades_write_through_setters', 'R12',
+               "the predecessor/successor list facades (and the read-only task lists) wrap the task's LIVE relation list: they never change "
+               "it in place - every change is an assignment to the owner's property, whose setter validates before it writes (an in-place "
+               "extend/append/remove, e.g. in __iadd__, makes the change before the validation: a rejected `t << x` keeps the link)", floor=4)
+    ctx.guarded(o, lambda o: link_facades(ctx, o, eff))
+
     o = ctx.ob('sort_works_on_a_copy', 'R12',
                "sort(): the ordering (whose key function / comparisons can fail on incomparable values) is computed on a copy by sorted(); "
                "the shared list is replaced only afterwards, in one step", floor=1)
@@ -307,6 +313,10 @@ def exempt(ctx, f, eff, w, r):
             return "facade read"
     if f.qual == SETTERS['children'] and rkind == 'call' and rcallee is not None and rcallee.qual == SETTERS['parent']:
         return "E1 every guard of the parent setter is established before the first write (obligation children_prevalidated)"
+    if rkind == 'call' and rcallee is not None and rcallee.qual == SETTERS['parent'] and f.qual != SETTERS['parent']:
+        v = _assigned_value(f, rnode)
+        if v is not None and isinstance(v, ast.Constant) and v.value is None and _parent_none_cannot_reject(ctx):
+            return "E3 `x.parent = None` cannot be rejected (every guard of the parent setter requires a parent; re-rooting is E3)"
     if f.qual == SETTERS['parent'] and rkind == 'call' and rcallee is not None and \
             rcallee.qual in ('task._ChildrenList.append', SETTERS['parent'], 'task._check_not_none') and _is_reroot(ctx, f, rnode):
         return "E3 re-rooting under the own WBS root cannot be rejected"
@@ -331,6 +341,25 @@ def exempt(ctx, f, eff, w, r):
              or any(rcallee is x for x in removers)):
         return "E3 removal of current members cannot be rejected"
     return None
+
+
+def _assigned_value(f, node):
+    """value of the assignment statement whose target is (or contains) node"""
+    for n in walk_no_nested(f.node):
+        if isinstance(n, ast.Assign) and any(x is node for t in n.targets for x in ast.walk(t)):
+            return n.value
+    return None
+
+
+def _parent_none_cannot_reject(ctx) -> bool:
+    """every explicit guard of the parent setter has `parent is not None` among its conditions"""
+    cached = getattr(ctx, '_c15_pnone', None)
+    if cached is None:
+        callee = ctx.prog.func(SETTERS['parent'])
+        gfs = T.guard_formulas(ctx, callee)
+        cached = bool(gfs) and all(T.implication(g.formula, [T.F_not(T.F_atom('none(arg)'))]) is None for g in gfs)
+        ctx._c15_pnone = cached
+    return cached
 
 
 def _facade_receiver(ctx, f, call) -> bool:
@@ -571,6 +600,22 @@ def _duplicate_id_check(ctx, h):
                  and c.func.id not in ('_collect_subtree', '_find_root')]
     if not tcs or pkg_calls:
         return None, h.node, "the answers of the group id check are not fully understood (helper calls / no true answer found)"
+    # every size comparison in the answers must be one the rule reads: emptiness (`len(x) == 0`) or the size of an intersection;
+    # any other counting argument (e.g. size of the union against tree ids + number of new tasks) may well cover duplicates
+    for path in tcs:
+        for t, p in path:
+            for n in ast.walk(t):
+                if isinstance(n, ast.Compare) and any(match("len($x)", z) for z in [n.left] + list(n.comparators)):
+                    others = [z for z in [n.left] + list(n.comparators) if not match("len($x)", z)]
+                    lens = [match("len($x)", z)['x'] for z in [n.left] + list(n.comparators) if match("len($x)", z)]
+                    understood = (bool(others) and all(isinstance(z, ast.Constant) for z in others)) or \
+                        any('intersection' in src(z) or (isinstance(z, ast.BinOp) and isinstance(z.op, ast.BitAnd)) for z in lens)
+                    if not understood:
+                        return None, h.node, f"counting argument `{src(n)[:80]}` not understood: it may cover equal ids inside the argument"
+    mutated = [n for n in ast.walk(h.node) if isinstance(n, ast.Call) and isinstance(n.func, ast.Attribute) and
+               n.func.attr in ('update', 'add', 'difference_update', 'intersection_update')]
+    if mutated:
+        return None, h.node, f"id sets are built up in place (`{src(mutated[0])[:60]}`): the answers cannot be read as one expression"
     return False, h.node, ('duplicates inside the argument',
                            "the group id check compares every element with the receiving tree only: two new tasks with equal ids pass it and "
                            "the second is rejected after the first was attached")
@@ -837,6 +882,35 @@ def _negative_index(ctx, f, i, idx_p, at):
     if any(isinstance(x, ast.Call) and isinstance(x.func, ast.Name) and x.func.id in ('max', 'min') for x in ast.walk(i)):
         return "index clamped before the attach"
     return "index used as given, before the attach (a failing lookup changes nothing)"
+
+
+def link_facades(ctx, o, eff):
+    prog = ctx.prog
+    for cls in ('_ImmutableTaskList', '_TaskList', '_PredecessorsList', '_SuccessorsList'):
+        c = prog.classes.get(cls)
+        if c is None:
+            o.undecided(None, None, cls, f"class {cls} not found")
+            continue
+        bad = False
+        # methods defined by the class or inherited from new intermediate bases (not from the other classes of this list / _ChildrenList)
+        methods = {}
+        for k in prog.mro(cls):
+            if k.name in ('_ChildrenList',) or (k.name != cls and k.name in ('_ImmutableTaskList', '_TaskList', '_PredecessorsList', '_SuccessorsList')):
+                continue
+            for n_, m in k.methods.items():
+                methods.setdefault(n_, m)
+        for m in methods.values():
+            if m.name == '__init__':
+                continue
+            for w in eff.direct_writes(m):
+                if w.field == '_list' and w.root != 'fresh':
+                    bad = True
+                    o.refute(m, w.node, w.node, f"{cls}.{unmangle(m.name)} changes the wrapped relation list in place (`{src(w.node)[:60]}`): for a "
+                                                f"link facade that is the task's live predecessors/successors list, so the change is made before "
+                                                f"(or without) the validating setter - a rejected `t.rel += x` / `t << x` leaves the new link behind")
+        if not bad:
+            o.site(c.methods.get('__init__', next(iter(c.methods.values()))) if c.methods else None, None,
+                   f"{cls}: no method changes the wrapped list in place")
 
 
 def sort_rule(ctx, o):
